@@ -791,6 +791,18 @@ def ufunc1(ex, name, v):
                 import math
                 return VFloat(float(math.ceil(x.v)))
             return VFloat(-z3.ToReal(z3.ToInt(-to_real(x))))
+        if name == "rint":
+            # round to the nearest integer, ties to the even one (numpy / IEEE)
+            if isinstance(x, (VInt, VBool)):
+                return x
+            if is_conc(x.v):
+                return VFloat(float(round(x.v)))
+            if is_fp(x.v):
+                return VFloat(z3.fpRoundToIntegral(z3.RNE(), x.v))
+            fl = z3.ToInt(x.v)
+            frac = x.v - z3.ToReal(fl)
+            half = z3.RealVal("1/2")
+            return VFloat(z3.ToReal(z3.If(frac < half, fl, z3.If(frac > half, fl + 1, z3.If(fl % 2 == 0, fl, fl + 1)))))
         if name == "square":
             return arith(ex.cfg, ast.Mult(), x, x)
         if name == "exp":
@@ -822,7 +834,7 @@ def ufunc1(ex, name, v):
     return f(v)
 
 
-for _n in ("abs", "trunc", "floor", "ceil", "square", "exp", "sqrt", "log10", "isnan", "isinf"):
+for _n in ("abs", "trunc", "floor", "ceil", "rint", "square", "exp", "sqrt", "log10", "isnan", "isinf"):
     NP["numpy." + _n] = (lambda n: lambda ex, args, kwargs, fr: ufunc1(ex, n, args[0]))(_n)
 
 
